@@ -2,6 +2,9 @@
 From Coq Require Import Floats.
 From EF Require Import Model.Base Model.Lexer Model.Ast Model.Code Model.Value Model.Env Model.Reflect
                        Model.Builtins Model.Compiler Model.VM Spec.Ops Spec.Eval Spec.Exec Proofs.StmtProofs.
+From EF Require Import Spec.Moded.
+From EF Require Spec.ExecFun Proofs.SpecProofs.
+Import SpecProofs.
 Open Scope N_scope.
 
 (* Compile correctness for blocks of statements, any nesting depth: executing the
@@ -28,3 +31,96 @@ Theorem C02_fall_off_is_null : forall o consts funcs fns obj code m k,
   polls m = None ->
   exec o consts funcs fns obj (S k) code (lenN code) m = (ODone VNull, m).
 Proof. exact StmtProofs.fall_off_is_null. Qed.
+
+(* ------------------------------------------------------------------ *)
+(* THE REFERENCE INTERPRETER MEANS WHAT THE PROPERTY SAYS.  The compile-correctness theorems relate the
+   byte-code to the reference interpreter (Spec/ExecFun.v); these theorems characterise that interpreter
+   in the property's own words, for all programs, containers, states and sufficient fuel
+   (`is_fuel r = false`: the run did not end by exhausting its fuel). *)
+
+(* foreach visits every element of an array, string, hash or range exactly once, in order, binding value
+   and optional index or key: the loop IS the body run once per entry of `entries` (array elements with
+   indexes 0,1,2.., characters of a string, the pairs of a hash in sorted key order - `entries_hash`,
+   `entries_range` in Proofs/SpecProofs.v), stopping at the first return or error, whatever the body
+   leaves on the stack.  Side condition on the body: value-less constructs only in statement position and
+   calls used only as whole statements (a call that returns nothing in operand position can eat the
+   loop's iterator; SpecProofs gives the general statement with the semantic condition `bodies_safe`). *)
+Theorem C02_foreach_visits_each_once : forall (o : stdlib) (fns : fnmap) (obj : hostval) (afs : ExecFun.aftable) (g h : nat) (idx ident : str)
+    (v : expr) (body : list stmt) (F : nat) (m m1 : mstate) (c : value) (s : list value) (es : list (value * value)) (r : ExecFun.sres),
+  moded_block g body = true -> nocall_block h body = true ->
+  ExecFun.sx o fns obj afs F v m = ExecFun.XNormal m1 -> stk m1 = c :: s -> entries o c = Some es ->
+  run_body_over o fns obj afs F idx ident body c 0 es (loop_state m1 s) = r -> is_fuel r = false ->
+  forall fuel : nat, (F + List.length es + 2 <= fuel)%nat -> ExecFun.sx o fns obj afs fuel (EForeach idx ident v body) m = r.
+Proof. exact SpecProofs.foreach_visits_each_once_tidy. Qed.
+
+(* ... and when the loop completes normally the body was entered for exactly the entries, each once, in order *)
+Theorem C02_normal_loop_visits_all : forall (o : stdlib) (fns : fnmap) (obj : hostval) (afs : ExecFun.aftable) (F : nat) (idx ident : str)
+    (body : list stmt) (c : value) (es : list (value * value)) (off : N) (m m' : mstate),
+  run_body_over o fns obj afs F idx ident body c off es m = ExecFun.XNormal m' ->
+  visited o fns obj afs F idx ident body c off es m = es.
+Proof. exact SpecProofs.normal_loop_visits_all. Qed.
+
+(* a while body runs once per iteration while its condition is truthy: k rounds of (condition truthy, body
+   normal), then the condition falsy *)
+Theorem C02_while_runs_k_times : forall (o : stdlib) (fns : fnmap) (obj : hostval) (afs : ExecFun.aftable) (c : expr) (body : list stmt)
+    (F k : nat) (m mk : mstate) (v : value) (mend : mstate),
+  iterate_while o fns obj afs F c body k m = Some mk ->
+  cond_val o fns obj afs F c mk = Some (v, mend) -> truthy v = false ->
+  forall fuel : nat, (F + k + 1 <= fuel)%nat ->
+  ExecFun.swhile o fns obj afs fuel c body m = ExecFun.XNormal mend /\ ExecFun.sx o fns obj afs (S fuel) (EWhile c body) m = ExecFun.XNormal mend.
+Proof. exact SpecProofs.while_runs_k_times. Qed.
+
+(* exactly one switch arm runs: the first one of whose case expressions matches (tests before it fail, arms and
+   expressions after it are not evaluated at all - `es2` and `post` are unconstrained) ... *)
+Theorem C02_switch_first_match : forall (o : stdlib) (fns : fnmap) (obj : hostval) (afs : ExecFun.aftable) (v : expr) (pre : list choice)
+    (es1 : list expr) (e : expr) (es2 : list expr) (blk : list stmt) (post : list (bool * list expr * list stmt)) (F : nat)
+    (m m' m'' : mstate) (r : ExecFun.sres),
+  tests_fail o fns obj afs F v (case_exprs_of pre ++ es1) m = Some m' ->
+  case_test o fns obj afs F v e m' = Some (true, m'') ->
+  ExecFun.sblock o fns obj afs F blk m'' = r -> is_fuel r = false ->
+  let cs := pre ++ (false, es1 ++ e :: es2, blk) :: post in
+  forall fuel : nat, (F + switch_cost cs cs + 1 <= fuel)%nat -> ExecFun.sx o fns obj afs fuel (ESwitch v cs) m = r.
+Proof. exact SpecProofs.switch_first_match. Qed.
+
+(* ... otherwise the default arm, wherever it is written; otherwise none *)
+Theorem C02_switch_no_match : forall (o : stdlib) (fns : fnmap) (obj : hostval) (afs : ExecFun.aftable) (v : expr) (cs : list choice) (F : nat)
+    (m m' : mstate) (r : ExecFun.sres),
+  tests_fail o fns obj afs F v (case_exprs_of cs) m = Some m' ->
+  run_blocks o fns obj afs F (default_blocks cs) m' = r -> is_fuel r = false ->
+  forall fuel : nat, (F + switch_cost cs cs + 1 <= fuel)%nat -> ExecFun.sx o fns obj afs fuel (ESwitch v cs) m = r.
+Proof. exact SpecProofs.switch_no_match. Qed.
+
+(* if / else if / else: the block of the first truthy condition runs, later conditions are not evaluated ... *)
+Theorem C02_if_first_truthy : forall (o : stdlib) (fns : fnmap) (obj : hostval) (afs : ExecFun.aftable) (pre : list (expr * list stmt)) (c0 : expr)
+    (b0 : list stmt) (more : list (expr * list stmt)) (els : option (list stmt)) (cj : expr) (bj : list stmt)
+    (post : list (expr * list stmt)) (F : nat) (m m' : mstate) (v : value) (m2 : mstate) (r : ExecFun.sres),
+  (c0, b0) :: more = pre ++ (cj, bj) :: post ->
+  all_falsy o fns obj afs F (map fst pre) m = Some m' ->
+  cond_val o fns obj afs F cj m' = Some (v, m2) -> truthy v = true ->
+  ExecFun.sblock o fns obj afs F bj m2 = r -> is_fuel r = false ->
+  forall fuel : nat, (F + 3 * List.length pre + 1 <= fuel)%nat -> ExecFun.sx o fns obj afs fuel (if_chain c0 b0 more els) m = r.
+Proof. exact SpecProofs.if_first_truthy. Qed.
+
+(* ... otherwise the else block, otherwise nothing *)
+Theorem C02_if_none_truthy : forall (o : stdlib) (fns : fnmap) (obj : hostval) (afs : ExecFun.aftable) (more : list (expr * list stmt)) (c0 : expr)
+    (b0 : list stmt) (els : option (list stmt)) (F : nat) (m m' : mstate) (r : ExecFun.sres),
+  all_falsy o fns obj afs F (map fst ((c0, b0) :: more)) m = Some m' ->
+  match els with Some a => ExecFun.sblock o fns obj afs F a m' | None => ExecFun.XNormal m' end = r -> is_fuel r = false ->
+  forall fuel : nat, (F + 3 * List.length more + 1 <= fuel)%nat -> ExecFun.sx o fns obj afs fuel (if_chain c0 b0 more els) m = r.
+Proof. exact SpecProofs.if_none_truthy. Qed.
+
+(* the conditional expression evaluates exactly one arm *)
+Theorem C02_ternary_selects : forall (o : stdlib) (fns : fnmap) (obj : hostval) (afs : ExecFun.aftable) (F : nat) (c t e : expr) (m : mstate)
+    (v : value) (m2 : mstate) (f : nat),
+  cond_val o fns obj afs F c m = Some (v, m2) -> (F <= f)%nat ->
+  ExecFun.sx o fns obj afs (S f) (ETernary c t e) m = ExecFun.sx o fns obj afs f (if truthy v then t else e) m2.
+Proof. exact SpecProofs.ternary_selects. Qed.
+
+(* a statement that does not complete normally (return, error) ends the block at once: nothing after it runs *)
+Theorem C02_block_stops_at : forall (o : stdlib) (fns : fnmap) (obj : hostval) (afs : ExecFun.aftable) (pre : list stmt) (s : stmt) (rest : list stmt)
+    (Fp Fs : nat) (m m1 : mstate) (r : ExecFun.sres),
+  ExecFun.sblock o fns obj afs Fp pre m = ExecFun.XNormal m1 -> ExecFun.sstmt o fns obj afs Fs s m1 = r ->
+  is_normal r = false -> is_fuel r = false ->
+  forall fuel : nat, (Fp <= fuel)%nat -> (Fs < fuel)%nat ->
+  ExecFun.sblock o fns obj afs (fuel + List.length pre) (pre ++ s :: rest) m = r.
+Proof. exact SpecProofs.block_stops_at. Qed.
